@@ -274,6 +274,7 @@ type vdDriver struct {
 	credCache  map[string][3]string
 	tagCache   map[string]string
 	evals      int
+	msgViews   int // evaluations that were also derived through parseRegMessage (dual-stack message)
 	mism       int
 	classes    map[string]bool
 	fields     map[string]int
@@ -536,23 +537,26 @@ func vdFirstFlight(wrap func(net.Conn) (net.Conn, error), n int) ([]byte, error)
 }
 
 // ---------------------------------------------------------------------------------- the three views
-func (d *vdDriver) stationView(w *vdWorld, sec *vdSecret, fam int, tu *vdLine, clientParams proto.Message) (vdView, bool, error) {
-	d.rm.PhantomSelector = w.sel
+// vdWrapper builds the registration message a registrar forwards for this tuple
+func (d *vdDriver) vdWrapper(sec *vdSecret, addr []byte, tu *vdLine, clientParams proto.Message, dual bool) (*pb.C2SWrapper, error) {
 	lv := uint32(tu.Lv)
 	tt := vdTransportType[tu.Tr]
 	covert := "192.0.2.55:443"
 	gen := uint32(1)
 	c2s := &pb.ClientToStation{ClientLibVersion: &lv, Transport: &tt, CovertAddress: &covert, DecoyListGeneration: &gen}
+	if dual {
+		c2s.V4Support, c2s.V6Support = proto.Bool(true), proto.Bool(true)
+	}
 	if tu.Pc != "absent" && clientParams != nil {
 		a, err := anypb.New(clientParams)
 		if err != nil {
-			return nil, false, err
+			return nil, err
 		}
 		c2s.TransportParams = a
 	}
 	src := pb.RegistrationSource_API
 	wr := &pb.C2SWrapper{SharedSecret: append([]byte(nil), sec.secret...), RegistrationPayload: c2s, RegistrationSource: &src,
-		RegistrationAddress: vdClientAddr(fam)}
+		RegistrationAddress: addr}
 	switch tu.Ov {
 	case "port":
 		src = pb.RegistrationSource_BidirectionalAPI
@@ -562,14 +566,16 @@ func (d *vdDriver) stationView(w *vdWorld, sec *vdSecret, fam int, tu *vdLine, c
 		src = pb.RegistrationSource_BidirectionalAPI
 		a, err := anypb.New(vdOverrideParams(tu))
 		if err != nil {
-			return nil, false, err
+			return nil, err
 		}
 		wr.RegistrationResponse = &pb.RegistrationResponse{TransportParams: a}
 	}
-	reg, err := d.rm.NewRegistrationC2SWrapper(wr, fam == 6)
-	if err != nil {
-		return nil, false, err
-	}
+	return wr, nil
+}
+
+// viewOf reads the derived values off a registration the station built
+func (d *vdDriver) viewOf(reg *DecoyRegistration, fam int, tu *vdLine) (vdView, error) {
+	tt := vdTransportType[tu.Tr]
 	v := vdView{}
 	v["seed"] = hex.EncodeToString(reg.Keys.ConjureSeed)
 	v["phantom"] = vdCanonIP(reg.PhantomIp, fam)
@@ -579,7 +585,7 @@ func (d *vdDriver) stationView(w *vdWorld, sec *vdSecret, fam int, tu *vdLine, c
 	if tu.Tr == "obfs4" {
 		pub, node, _, ok := obfs4.VerifStationKeys(reg.TransportKeys())
 		if !ok {
-			return nil, false, fmt.Errorf("no obfs4 keys on the registration")
+			return nil, fmt.Errorf("no obfs4 keys on the registration")
 		}
 		v["obfs4.pub"], v["obfs4.nodeid"] = hex.EncodeToString(pub), hex.EncodeToString(node)
 		if id != string(pub)+string(node) {
@@ -599,12 +605,65 @@ func (d *vdDriver) stationView(w *vdWorld, sec *vdSecret, fam int, tu *vdLine, c
 		c := d.creds(reg.SharedSecret())
 		v["dtls.hellorandom"], v["dtls.clientcert"], v["dtls.servercert"] = c[0], c[1], c[2]
 	}
+	return v, nil
+}
+
+func (d *vdDriver) stationView(w *vdWorld, sec *vdSecret, fam int, tu *vdLine, clientParams proto.Message) (vdView, bool, error) {
+	d.rm.PhantomSelector = w.sel
+	wr, err := d.vdWrapper(sec, vdClientAddr(fam), tu, clientParams, false)
+	if err != nil {
+		return nil, false, err
+	}
+	reg, err := d.rm.NewRegistrationC2SWrapper(wr, fam == 6)
+	if err != nil {
+		return nil, false, err
+	}
+	v, err := d.viewOf(reg, fam, tu)
+	if err != nil {
+		return nil, false, err
+	}
 	// the port flag of the phantom's subnet as the station's selector reports it
 	ph, err := w.sel.Select(reg.Keys.ConjureSeed, 1, uint(tu.Lv), fam == 6)
 	if err != nil {
 		return nil, false, fmt.Errorf("second selection failed: %v", err)
 	}
 	return v, ph.SupportRandomPort(), nil
+}
+
+// stationMsgView is the station's view through the path real traffic takes: the marshalled message of a DUAL-STACK client
+// (IPv4 registrant, v4_support and v6_support set) goes through parseRegMessage, which builds the IPv4 and the IPv6
+// registration from one message; the registrations are then visited in ingest order.  Returns the view of family fam, or
+// ok = false when the message yields no registration of that family (a failure in either half aborts the message).
+func (d *vdDriver) stationMsgView(w *vdWorld, sec *vdSecret, fam int, tu *vdLine, clientParams proto.Message) (vdView, bool) {
+	d.rm.PhantomSelector = w.sel
+	d.rm.EnableIPv4, d.rm.EnableIPv6 = true, true
+	wr, err := d.vdWrapper(sec, vdClientAddr(4), tu, clientParams, true)
+	if err != nil {
+		return nil, false
+	}
+	raw, err := proto.Marshal(wr)
+	if err != nil {
+		return nil, false
+	}
+	regs, err := d.rm.parseRegMessage(raw)
+	if err != nil || len(regs) != 2 {
+		return nil, false
+	}
+	var out vdView
+	for _, reg := range regs { // ingest order: IPv4 first
+		f := 6
+		if reg.PhantomIp.To4() != nil {
+			f = 4
+		}
+		v, err := d.viewOf(reg, f, tu)
+		if err != nil {
+			return vdView{"error": err.Error()}, true
+		}
+		if f == fam {
+			out = v
+		}
+	}
+	return out, out != nil
 }
 
 func (d *vdDriver) creds(psk []byte) [3]string {
@@ -967,6 +1026,12 @@ func (d *vdDriver) eval(w *vdWorld, sec *vdSecret, fam int, tu0 *vdLine) {
 	}
 	cv, rpC, cerr := d.clientView(w, sec, fam, tu, ct, mustHex(pv["seed"]))
 	views := map[string]vdView{"station": sv, "client": cv, "spec": pv}
+	if serr == nil {
+		if mv, ok := d.stationMsgView(w, sec, fam, tu0, cparams); ok {
+			views["station-msg"] = mv
+			d.msgViews++
+		}
+	}
 	cls := fmt.Sprintf("%d|%s|%s|%d|%s|%s|%d", tu.Lv, tu.Tr, tu.Pc, tu.Pid, tu.Ov, w.name, fam)
 	if serr != nil || cerr != nil {
 		// a selection that fails must fail on both ends (no address of the family in the chosen group, legacy v0 bug)
@@ -996,7 +1061,7 @@ func (d *vdDriver) eval(w *vdWorld, sec *vdSecret, fam int, tu0 *vdLine) {
 		var ref string
 		var have bool
 		bad := false
-		for _, n := range []string{"station", "client", "spec"} {
+		for _, n := range []string{"station", "station-msg", "client", "spec"} {
 			x, ok := views[n][f]
 			if !ok {
 				continue
@@ -1093,7 +1158,7 @@ func TestVerifDerive(t *testing.T) {
 			}
 		}
 	}
-	d.out.Emit(map[string]any{"kind": "summary", "evaluations": d.evals, "mismatches": d.mism, "classes": len(d.classes), "tuples": napp,
+	d.out.Emit(map[string]any{"kind": "summary", "msg_views": d.msgViews, "evaluations": d.evals, "mismatches": d.mism, "classes": len(d.classes), "tuples": napp,
 		"tuples_not_applicable": nskip, "worlds": len(d.worlds), "secrets": len(secrets), "skipped": d.skipped, "mismatch_fields": d.fields})
 	d.out.Emit(map[string]any{"kind": "end"})
 }
